@@ -542,7 +542,7 @@ Inductive oop :=
   (* unary *)
   | ONeg (sb : ity) | OAbs (sb : ity) | OSign (sb : ity) | OBitNot (sb : ity) | ONot
   | OCast (t : ity) | OCastToBool | OCastOfBool (t : ity) | OCastFloat
-  | ORound | OFloor | OCeil | OAbsF | OSignF | OIdentity
+  | ORound | OFloor | OCeil | OAbsF | OSignF | OIdentity | ORelu
   (* binary *)
   | OAdd (sb : ity) | OSub (sb : ity) | OMul (sb : ity) | ODiv (sb : ity) | OPow (sb : ity)
   | OMax | OMin | OAnd | OOr | OXor
@@ -550,7 +550,7 @@ Inductive oop :=
   | OEqual | OLess | OLessEq | OGreater | OGreaterEq | OEqualB
   | OSubF | OEqualF | OAddF | OMulF
   (* ternary *)
-  | OWhere | OWhereB.
+  | OWhere | OWhereB | OClip.
 
 Definition sem1 (o : oop) : sval -> sval :=
   match o with
@@ -559,7 +559,7 @@ Definition sem1 (o : oop) : sval -> sval :=
   | OCast t => lift1 SZ SZ (o_cast t) | OCastToBool => lift1 SZ SB o_cast_to_bool
   | OCastOfBool t => lift1 SB SZ (o_cast_of_bool t) | OCastFloat => lift1 SZ SZ o_cast_float
   | ORound => lift1 SQ SZ o_round | OFloor => lift1 SQ SZ o_floor | OCeil => lift1 SQ SZ o_ceil
-  | OAbsF => lift1 SQ SQ q_abs | OSignF => lift1 SQ SZ q_sign
+  | OAbsF => lift1 SQ SQ q_abs | OSignF => lift1 SQ SZ q_sign | ORelu => lift1 SZ SZ o_relu
   | _ => fun x => x
   end.
 Definition sem2 (o : oop) : sval -> sval -> sval :=
@@ -578,7 +578,7 @@ Definition sem2 (o : oop) : sval -> sval -> sval :=
   end.
 Definition sem3 (o : oop) : sval -> sval -> sval -> sval :=
   match o with
-  | OWhere => lift3 SB SZ SZ SZ o_where | OWhereB => lift3 SB SB SB SB o_where_b
+  | OWhere => lift3 SB SZ SZ SZ o_where | OWhereB => lift3 SB SB SB SB o_where_b | OClip => lift3 SZ SZ SZ SZ o_clip
   | _ => fun x _ _ => x
   end.
 
@@ -599,11 +599,10 @@ Definition ke_div sb : kx := KOp2 (ODiv sb) v0 v1.
 Definition ke_rem_of sb (x y : kx) : kx := KOp2 (OSub sb) x (KOp2 (OMul sb) (KOp2 (ODiv sb) x y) y).
 Definition ke_rem sb : kx := ke_rem_of sb v0 v1.
 Definition ke_floor_divide (sb : ity) : kx :=
-  if is_signed sb then
-    KOp3 OWhere (KOp2 OAnd (KOp1 ONot (KOp2 OEqual (KOp1 (OSign sb) v0) (KOp1 (OSign sb) v1)))
-                           (KOp1 ONot (KOp2 OEqual (ke_rem_of sb v0 v1) (kz 0))))
-         (KOp2 (OSub sb) (KOp2 (ODiv sb) v0 v1) (kz 1)) (KOp2 (ODiv sb) v0 v1)
-  else KOp2 (ODiv sb) v0 v1.
+  let q := KOp2 (ODiv sb) v0 v1 in
+  let r := ke_rem_of sb v0 v1 in
+  KOp3 OWhere (KOp2 OAnd (KOp1 ONot (KOp2 OEqual r (kz 0))) (KOp2 OXor (KOp2 OLess r (kz 0)) (KOp2 OLess v1 (kz 0))))
+       (KOp2 (OSub sb) q (kz 1)) q.
 Definition ke_guard : kx := KOp3 OWhere (KOp2 OEqual v1 (kz 0)) (kz 1) v1.
 Definition ke_mod sb : kx :=
   let r := ke_rem_of sb v0 ke_guard in
@@ -614,7 +613,8 @@ Definition ke_fmod sb : kx := ke_rem_of sb v0 ke_guard.
 Definition ke_max : kx := KOp2 OMax v0 v1.
 Definition ke_min : kx := KOp2 OMin v0 v1.
 Definition ke_clamp : kx := KOp2 OMin (KOp2 OMax v0 v1) v2.
-Definition ke_relu : kx := KOp2 OMax v0 (kz 0).
+Definition ke_relu : kx := KOp1 ORelu v0.
+Definition ke_clip_op : kx := KOp3 OClip v0 v1 v2.
 Definition ke_relu6 : kx := KOp2 OMin (KOp1 OCastFloat (KOp2 OMax v0 (kz 0))) (kz 6).
 Definition ke_select_n : kx := KOp3 OWhere v0 v2 v1.
 Definition ke_select_n_b : kx := KOp3 OWhereB v0 v2 v1.
@@ -683,7 +683,8 @@ Lemma ke_sign_sound sb x : kev_s (ke_sign sb) [VZ x] = VZ (lowered_sign sb x). P
 Lemma ke_div_sound sb x y : kev_s (ke_div sb) [VZ x; VZ y] = VZ (lowered_div sb x y). Proof. reflexivity. Qed.
 Lemma ke_rem_sound sb x y : kev_s (ke_rem sb) [VZ x; VZ y] = VZ (lowered_rem sb x y). Proof. reflexivity. Qed.
 Lemma ke_floor_divide_sound sb x y : kev_s (ke_floor_divide sb) [VZ x; VZ y] = VZ (lowered_floor_divide sb x y).
-Proof. unfold ke_floor_divide, lowered_floor_divide. now destruct (is_signed sb). Qed.
+Proof. reflexivity. Qed.
+Lemma ke_clip_op_sound x lo hi : kev_s ke_clip_op [VZ x; VZ lo; VZ hi] = VZ (lowered_clip_op x lo hi). Proof. reflexivity. Qed.
 Lemma ke_mod_sound sb x y : kev_s (ke_mod sb) [VZ x; VZ y] = VZ (lowered_mod sb x y). Proof. reflexivity. Qed.
 Lemma ke_fmod_sound sb x y : kev_s (ke_fmod sb) [VZ x; VZ y] = VZ (lowered_fmod sb x y). Proof. reflexivity. Qed.
 Lemma ke_max_sound x y : kev_s ke_max [VZ x; VZ y] = VZ (lowered_max x y). Proof. reflexivity. Qed.
@@ -832,7 +833,7 @@ Definition ttrue3 {A B C} : A -> B -> C -> Prop := fun _ _ _ => True.
 Lemma tdom2_true {A B} (X : tensor A) (Y : tensor B) : tdom2 ttrue2 X Y. Proof. intros idx _. exact I. Qed.
 Lemma tdom3_true {A B C} (X : tensor A) (Y : tensor B) (Z : tensor C) : tdom3 ttrue3 X Y Z. Proof. intros idx _. exact I. Qed.
 
-Ltac kuses_tac := unfold ke_neg, ke_floor_divide, ke_shift_left, ke_shift_right_logical, ke_shift_right_arithmetic; repeat (cbn; try match goal with |- context [if is_signed ?s then _ else _] => destruct (is_signed s) end); tauto.
+Ltac kuses_tac := unfold ke_neg, ke_shift_left, ke_shift_right_logical, ke_shift_right_arithmetic; repeat (cbn; try match goal with |- context [if is_signed ?s then _ else _] => destruct (is_signed s) end); tauto.
 
 Section Lifted.
   Variable sb : ity.
@@ -963,6 +964,9 @@ Proof. intro H. apply (@lift3_k SZ SZ SZ SZ ke_clamp lowered_clamp jax_clamp ttr
 Theorem clip_lifted X Lo Hi u : bcommon [shape X; shape Lo; shape Hi] u ->
   teq (kev_t ke_clamp [zt X; zt Lo; zt Hi]) (zt (tmap3b jax_clip X Lo Hi)).
 Proof. intro H. apply (@lift3_k SZ SZ SZ SZ ke_clamp lowered_clip jax_clip ttrue3) with (u := u); auto using tdom3_true, clip_correct; try kuses_tac; try (intros idx _; exact I). Qed.
+Theorem clip_op_lifted X Lo Hi u : bcommon [shape X; shape Lo; shape Hi] u ->
+  teq (kev_t ke_clip_op [zt X; zt Lo; zt Hi]) (zt (tmap3b jax_clip X Lo Hi)).
+Proof. intro H. apply (@lift3_k SZ SZ SZ SZ ke_clip_op lowered_clip_op jax_clip ttrue3) with (u := u); auto using tdom3_true, clip_op_correct; try kuses_tac; try (intros idx _; exact I). Qed.
 Theorem relu_lifted X : teq (kev_t ke_relu [zt X]) (zt (tmap jax_relu X)).
 Proof. apply (@lift1_k SZ SZ ke_relu lowered_relu jax_relu (fun _ => True)); auto using relu_correct; try kuses_tac; try (intros idx _; exact I). Qed.
 Theorem relu6_lifted X : teq (kev_t ke_relu6 [zt X]) (zt (tmap jax_relu6 X)).
